@@ -137,7 +137,7 @@ pub(crate) fn epoch_seconds_to_day_of_week(t: i64) -> u8 {
 
 #[cfg(feature = "tzdb")]
 pub(crate) fn epoch_seconds_to_day_of_month(t: i64) -> u16 {
-    let leap_day = mathematical_in_leap_year(t);
+    let leap_day = mathematical_in_leap_year(t * 1_000);
     epoch_time_to_day_in_year(t * 1_000) as u16
         - month_to_day(epoch_ms_to_month_in_year(t * 1_000) - 1, leap_day as u16)
 }
